@@ -631,6 +631,29 @@ def r_par_linear(F, V):
             R.inst("RawIntoParIter::drive_unindexed|order", "the iterator is taken before the table is turned into its allocation; the guard frees it", "ok", True, where(ip))
         else:
             R.violation("external_trait_impls::rayon::raw::<RawIntoParIter as ParallelIterator>::drive_unindexed|order", ip, "into_par_iter does not take its iterator before into_allocation()")
+    # once the element cursor has been taken out of the table (the storage is then freed / reset by a guard WITHOUT dropping
+    # elements), the cursor is handed to a ParDrainProducer - whose Drop drops what no consumer received - on every path
+    for fn in ("external_trait_impls::rayon::raw::<RawIntoParIter as ParallelIterator>::drive_unindexed",
+               "external_trait_impls::rayon::raw::<RawParDrain as ParallelIterator>::drive_unindexed"):
+        db = F.bodies.get(fn)
+        if db is None:
+            continue
+        key2 = fn.split("<")[1].split(" ")[0] + "::drive_unindexed|cursor-owned-on-every-path"
+        taken = [i for i, t in db.calls() if (callee_path(t) or "").endswith("RawTable::iter") or (callee_path(t) or "").endswith("::par_iter")]
+        prod = [i for i, k, s_ in db.stmts() if s_["k"] == "assign" and s_["rv"]["k"] == "aggregate" and (s_["rv"].get("adt") or "").endswith("ParDrainProducer")]
+        if not taken or not prod:
+            R.undec("%s: cursor extraction (%d) / ParDrainProducer construction (%d) not found" % (fn, len(taken), len(prod)))
+            continue
+        reach = set()
+        for i in taken:
+            for x in db.nsucc[i]:
+                reach |= db.reachable_from(x, tuple(prod))
+        if any(r in reach for r in db.returns):
+            R.violation(key2, db, "after the element cursor has been taken from the table a return is reachable without the cursor having been moved into a ParDrainProducer: the guard then frees / resets "
+                        "the storage while the elements no consumer received are never dropped (e.g. an early return for a consumer that is already full)")
+            R.inst(key2, "cursor can be abandoned", "violation", True, where(db))
+        else:
+            R.inst(key2, "every path from taking the cursor to return constructs the ParDrainProducer that owns it", "ok", True, where(db, bb=prod[0]))
     return R
 
 
